@@ -53,9 +53,8 @@ impl Lint for GlobalLint {
                             .and_then(|indexing| indexing.first())
                             .and_then(|index_entry| index_entry.static_name.as_ref())
                         {
-                            // Trim whitespace at the end as `_G.a  = 1` yields `a  `
-                            Some(name) => ignore_pattern
-                                .is_match(name.to_string().trim_end_matches(char::is_whitespace)),
+                            // The name is the token itself: `_G.a  = 1` and `_G.a -- note` both name `a`
+                            Some(name) => ignore_pattern.is_match(&name.token().to_string()),
                             None => false,
                         },
                         None => false,
